@@ -10,6 +10,7 @@ def run(tier, seed):
     c = vlib.GoCheck("C04", "translation_validation", tier, seed)
     c.assumptions = [
         "claimed part (a): for every numeric instruction of the WAT token list a one-instruction function is written in text, assembled by the tree's wat2wasm, and the resulting binary - read by an independent binary reader and executed symbolically - computes the WebAssembly 1.0 result (or trap) of the instruction written in the text for every operand value; NaN payloads are not compared",
+        "claimed part (b): every load/store instruction with four (offset, align) immediate variants (symbolic data, three base addresses), and a hand-written control module: branch depths, br_table with default, backward loop branch, if/else with result, tee/drop/select, direct and indirect calls (with trap), globals, memory.size/grow, i32/i64 constants at LEB128 boundaries",
         "not claimed: equality of section layout with WABT, the name section, validation of arbitrary modules (no reference assembler or validator in the sandbox)",
     ]
     hfile = os.path.join(vlib.VERIF, "harness/go", WH, "zz_verif_c04.go")
@@ -17,10 +18,13 @@ def run(tier, seed):
     wdir = os.path.join(c.scratch, "wasm")
     os.makedirs(wdir)
     open(os.path.join(wdir, "c04ops.wat"), "w").write(wasmgen.c04_ops_wat(ops))
+    open(os.path.join(wdir, "c04mem.wat"), "w").write(wasmgen.c04_mem_wat())
+    import shutil
+    shutil.copy(os.path.join(vlib.VERIF, "harness/wat/c04_ctl.wat"), os.path.join(wdir, "c04ctl.wat"))
     ov = vlib.make_overlay(c.scratch, [{"dir": WH, "name": "wh"}, {"dir": WB, "name": "main", "rt": False}])
-    vlib.build_wasm(c.scratch, ov, [["wat2wasm", os.path.join(wdir, "c04ops.wat"), os.path.join(wdir, "c04ops.wasm")]])
+    vlib.build_wasm(c.scratch, ov, [["wat2wasm", os.path.join(wdir, n + ".wat"), os.path.join(wdir, n + ".wasm")] for n in ("c04ops", "c04mem", "c04ctl")])
     vlib.REPLAY_ENV["VF_WASM_DIR"] = wdir
     c.extra_cov["programs"] = len(ops)
-    c.run_unit(WH, "wh", harnesses=["VfH_ops"], extra_pkgs=[{"dir": WB, "name": "main", "rt": False}],
-               opts={"wasm": "c04ops=" + os.path.join(wdir, "c04ops.wasm"), "samples": 2})
+    c.run_unit(WH, "wh", harnesses=["VfH_ops", "VfH_mem", "VfH_ctl"], extra_pkgs=[{"dir": WB, "name": "main", "rt": False}],
+               opts={"wasm": ",".join("%s=%s" % (n, os.path.join(wdir, n + ".wasm")) for n in ("c04ops", "c04mem", "c04ctl")), "samples": 2})
     return c.finish()
